@@ -282,6 +282,7 @@ let () =
   let oc = if Array.length Sys.argv > 2 then open_out Sys.argv.(2) else stdout in
   let cur : (cbuf * world) option ref = ref None in
   let k = ref 0 in
+  let unst = ref false in
   (try
      while true do
        let line = input_line ic in
@@ -297,6 +298,7 @@ let () =
          let w = { dbg = (g "dbg" = "1"); next_id = z_of_string (g "nid");
                    log = []; fault = p_fault (g "fault") } in
          cur := Some (b, w);
+         unst := (try g "unst" = "1" with Not_found -> false);
          k := 0;
          output_string oc (line ^ "\n");
          output_string oc ("init " ^ contents_line b ^ "\n")
@@ -317,7 +319,8 @@ let () =
                    (s_list s_elem r.sr_list) (s_list s_event r.sr_evs))
             | SPanic -> output_string oc (Printf.sprintf "s k=%d r=panic\n" !k));
            (* model *)
-           let ((r, s'), w') = exec o s w in
+           (* the nightly `unstable` build is compared with the model of the unstable bodies *)
+           let ((r, s'), w') = if !unst then exec_unstable o s w else exec o s w in
            let rs = (match r with Ok v -> s_out v | Panic p -> "panic:" ^ s_kind p) in
            output_string oc
              (Printf.sprintf "m k=%d r=%s %s e=%s f=%s\n" !k rs (contents_line s')
